@@ -241,6 +241,9 @@ func (t *Transport) unsubscribe(u *tSub) {
 	s.seq++
 	ev := SeamEvent{Kind: "unsub", NS: u.ns, Step: s.Step, Cut: s.Cut, Seq: s.seq, Time: s.nowNS()}
 	t.Log = append(t.Log, ev)
+	if strings.HasPrefix(u.ns, "event.") && s.traceEnd == 0 {
+		s.Stats["event_subscription_released"]++
+	}
 	s.obsLocked("seam", "unsub "+u.ns)
 }
 
@@ -513,6 +516,7 @@ func (t *Transport) deliver(id string) bool {
 		return true
 	}
 	s.seq++
+	s.Stats["deliveries"]++
 	if m.Kind == "reply" {
 		m.Req.Delivered = true
 		m.Req.DlvStep, m.Req.DlvCut, m.Req.DlvSeq = s.Step, s.Cut, s.seq
